@@ -6,6 +6,7 @@ os.sched_getaffinity, resource.prlimit, /proc/<pid>/limits); two sentinel proces
 before/after every set.
 """
 import ctypes
+import contextlib
 import itertools
 import os
 import resource
@@ -87,6 +88,28 @@ class Ctx:
             c.kill()
             c.wait()
 
+    @contextlib.contextmanager
+    def block(self, on):
+        """Optionally run the set + read-back inside a oneshot() block whose caches were filled beforehand (including
+        by the get forms themselves): a get answered from a per-block cache would then report the value before the set."""
+        if not on:
+            yield
+            return
+        with self.p.oneshot():
+            for m in ("cpu_times", "status", "ppid", "name", "uids", "memory_info", "num_threads", "num_ctx_switches",
+                      "nice", "ionice", "cpu_affinity", "cpu_num", "create_time"):
+                try:
+                    getattr(self.p, m)()
+                except Exception:  # noqa: BLE001
+                    pass
+            for res, _ in RLIMS[:3]:
+                try:
+                    self.p.rlimit(res)
+                except Exception:  # noqa: BLE001
+                    pass
+            self.acc.count("sets_inside_primed_oneshot_block")
+            yield
+
     def guarded(self, fn, case, check_target_unchanged=False):
         """Run fn between sentinel snapshots. Returns ('ok', v) | (excname, exc)."""
         before = [snapshot(s) for s in self.sent]
@@ -111,23 +134,24 @@ class Ctx:
 def run_nice(acc, values):
     c = Ctx(acc)
     try:
-        for v in values:
-            case = dict(kind="nice", value=v)
-            r, viols, tb = c.guarded(lambda: c.p.nice(v), case)
-            acc.count("sets_checked")
-            if r[0] != "ok":
-                viols.append((f"nice_set_raised:{r[0]}", f"nice({v}) -> {r[1]!r}"))
-            else:
-                k = os.getpriority(os.PRIO_PROCESS, c.target.pid)
-                try:
-                    got = c.p.nice()
-                except Exception as e:  # noqa: BLE001
-                    got = f"raised {e!r}"
-                    viols.append((f"nice_get_raised:{type(e).__name__}", f"nice() with kernel niceness {k} -> {e!r}"))
-                acc.count("kernel_readbacks")
-                if (got != v and not isinstance(got, str)) or k != v:
-                    viols.append(("nice_readback_wrong", f"nice({v}): psutil get {got} kernel {k}"))
-            acc.case(case, tb["nice"] != v, viols, key=harness.chash(["nice", v, tb["nice"]]))
+        for n_, v in enumerate(values):
+            case = dict(kind="nice", value=v, oneshot=bool(n_ % 2))
+            with c.block(n_ % 2):
+                r, viols, tb = c.guarded(lambda: c.p.nice(v), case)
+                acc.count("sets_checked")
+                if r[0] != "ok":
+                    viols.append((f"nice_set_raised:{r[0]}", f"nice({v}) -> {r[1]!r}"))
+                else:
+                    k = os.getpriority(os.PRIO_PROCESS, c.target.pid)
+                    try:
+                        got = c.p.nice()
+                    except Exception as e:  # noqa: BLE001
+                        got = f"raised {e!r}"
+                        viols.append((f"nice_get_raised:{type(e).__name__}", f"nice() with kernel niceness {k} -> {e!r}"))
+                    acc.count("kernel_readbacks")
+                    if (got != v and not isinstance(got, str)) or k != v:
+                        viols.append(("nice_readback_wrong", f"nice({v}): psutil get {got} kernel {k}"))
+            acc.case(case, tb["nice"] != v, viols, key=harness.chash(["nice", v, tb["nice"], n_ % 2]))
         for bad in (20, 21, 100, -21, -100):
             # out-of-range nice values are clamped by the kernel (not listed as invalid by the statement): only sentinels matter
             case = dict(kind="nice_out_of_range", value=bad)
@@ -144,24 +168,25 @@ def run_ionice(acc):
         valid = [(0, None), (0, 0), (3, None), (3, 0)] + [(k, v) for k in (1, 2) for v in list(range(8)) + [None]]
         for rep in range(2):
             for k, v in valid:
-                case = dict(kind="ionice", ioclass=k, value=v)
-                r, viols, tb = c.guarded(lambda: c.p.ionice(k, v), case)
-                acc.count("sets_checked")
-                want = (k, v or 0)
-                if r[0] != "ok":
-                    viols.append((f"ionice_set_raised:{r[0]}", f"ionice({k},{v}) -> {r[1]!r}"))
-                else:
-                    kr = raw_ioprio(c.target.pid)
-                    try:
-                        g = c.p.ionice()
-                        gv = (int(g.ioclass), g.value)
-                    except Exception as e:  # noqa: BLE001
-                        gv = None
-                        viols.append((f"ionice_get_raised:{type(e).__name__}", f"ionice() with kernel value {kr} -> {e!r}"))
-                    acc.count("kernel_readbacks")
-                    if (gv is not None and gv != want) or kr != want:
-                        viols.append(("ionice_readback_wrong", f"ionice({k},{v}): psutil get {gv} kernel {kr}"))
-                acc.case(case, tb["ioprio"] != want, viols, key=harness.chash(["ionice", k, v, tb["ioprio"]]))
+                case = dict(kind="ionice", ioclass=k, value=v, oneshot=bool(rep))
+                with c.block(rep):
+                    r, viols, tb = c.guarded(lambda: c.p.ionice(k, v), case)
+                    acc.count("sets_checked")
+                    want = (k, v or 0)
+                    if r[0] != "ok":
+                        viols.append((f"ionice_set_raised:{r[0]}", f"ionice({k},{v}) -> {r[1]!r}"))
+                    else:
+                        kr = raw_ioprio(c.target.pid)
+                        try:
+                            g = c.p.ionice()
+                            gv = (int(g.ioclass), g.value)
+                        except Exception as e:  # noqa: BLE001
+                            gv = None
+                            viols.append((f"ionice_get_raised:{type(e).__name__}", f"ionice() with kernel value {kr} -> {e!r}"))
+                        acc.count("kernel_readbacks")
+                        if (gv is not None and gv != want) or kr != want:
+                            viols.append(("ionice_readback_wrong", f"ionice({k},{v}): psutil get {gv} kernel {kr}"))
+                acc.case(case, tb["ioprio"] != want, viols, key=harness.chash(["ionice", k, v, tb["ioprio"], rep]))
         invalid = [(k, v) for k in (1, 2) for v in (-1, 8, 9, 100, -100, 2**31)] + [(k, v) for k in (0, 3) for v in range(1, 9)]
         for k, v in invalid:
             case = dict(kind="ionice_invalid", ioclass=k, value=v)
@@ -207,22 +232,23 @@ def run_affinity(acc, shard):
             lists.append(s)
         n = 0
         for cpus in lists:
-            case = dict(kind="affinity", cpus=cpus)
-            r, viols, tb = c.guarded(lambda: c.p.cpu_affinity(cpus), case)
-            acc.count("sets_checked")
-            want = sorted(set(cpus))
-            if r[0] != "ok":
-                viols.append((f"affinity_set_raised:{r[0]}", f"cpu_affinity({cpus}) -> {r[1]!r}"))
-            else:
-                k = sorted(os.sched_getaffinity(c.target.pid))
-                try:
-                    g = c.p.cpu_affinity()
-                except Exception as e:  # noqa: BLE001
-                    g = None
-                    viols.append((f"affinity_get_raised:{type(e).__name__}", f"cpu_affinity() with kernel mask {k} -> {e!r}"))
-                acc.count("kernel_readbacks")
-                if (g is not None and g != want) or k != want:
-                    viols.append(("affinity_readback_wrong", f"cpu_affinity({cpus}): psutil get {g} kernel {k}"))
+            case = dict(kind="affinity", cpus=cpus, oneshot=bool(n % 3 == 1))
+            with c.block(n % 3 == 1):
+                r, viols, tb = c.guarded(lambda: c.p.cpu_affinity(cpus), case)
+                acc.count("sets_checked")
+                want = sorted(set(cpus))
+                if r[0] != "ok":
+                    viols.append((f"affinity_set_raised:{r[0]}", f"cpu_affinity({cpus}) -> {r[1]!r}"))
+                else:
+                    k = sorted(os.sched_getaffinity(c.target.pid))
+                    try:
+                        g = c.p.cpu_affinity()
+                    except Exception as e:  # noqa: BLE001
+                        g = None
+                        viols.append((f"affinity_get_raised:{type(e).__name__}", f"cpu_affinity() with kernel mask {k} -> {e!r}"))
+                    acc.count("kernel_readbacks")
+                    if (g is not None and g != want) or k != want:
+                        viols.append(("affinity_readback_wrong", f"cpu_affinity({cpus}): psutil get {g} kernel {k}"))
             acc.case(case, tb["aff"] != want, viols, key=harness.chash(["aff", want, tb["aff"]]))
             n += 1
             if n % 7 == 0 or n < 4:
@@ -292,28 +318,29 @@ def run_rlimit(acc, shard):
                 if r[0] != "ValueError":
                     viols.append(("rlimit_not_a_pair_not_ValueError", f"rlimit({name},{bad}) -> {r[0]}"))
                 acc.case(case, True, viols)
-            for s, h in cands:
-                case = dict(kind="rlimit", res=name, soft=s, hard=h)
-                r, viols, tb = c.guarded(lambda: c.p.rlimit(res, (s, h)), case)
-                acc.count("sets_checked")
-                prev = tb["rlim"][[x for x, _ in RLIMS].index(res)]
-                if r[0] == "AccessDenied":
-                    acc.count("rlimit_refused_by_kernel")
-                elif r[0] != "ok":
-                    viols.append((f"rlimit_set_raised:{r[0]}", f"rlimit({name},({s},{h})) -> {r[1]!r}"))
-                else:
-                    g = tuple(c.p.rlimit(res))
-                    k = resource.prlimit(c.target.pid, res)
-                    acc.count("kernel_readbacks")
-                    if g != (s, h) or k != (s, h):
-                        viols.append(("rlimit_readback_wrong", f"rlimit({name},({s},{h})): psutil {g} kernel {k}"))
-                    # every other resource of the target is untouched
-                    ta = snapshot(c.target.pid)
-                    for i, (r2, n2) in enumerate(RLIMS):
-                        if r2 != res and ta["rlim"][i] != tb["rlim"][i]:
-                            viols.append(("rlimit_changed_other_resource", f"set {name} changed {n2}: {tb['rlim'][i]} -> {ta['rlim'][i]}"))
-                    if (ta["nice"], ta["ioprio"], ta["aff"]) != (tb["nice"], tb["ioprio"], tb["aff"]):
-                        viols.append(("rlimit_changed_other_attribute", f"set {name}"))
+            for n_, (s, h) in enumerate(cands):
+                case = dict(kind="rlimit", res=name, soft=s, hard=h, oneshot=bool(n_ % 2))
+                with c.block(n_ % 2):
+                    r, viols, tb = c.guarded(lambda: c.p.rlimit(res, (s, h)), case)
+                    acc.count("sets_checked")
+                    prev = tb["rlim"][[x for x, _ in RLIMS].index(res)]
+                    if r[0] == "AccessDenied":
+                        acc.count("rlimit_refused_by_kernel")
+                    elif r[0] != "ok":
+                        viols.append((f"rlimit_set_raised:{r[0]}", f"rlimit({name},({s},{h})) -> {r[1]!r}"))
+                    else:
+                        g = tuple(c.p.rlimit(res))
+                        k = resource.prlimit(c.target.pid, res)
+                        acc.count("kernel_readbacks")
+                        if g != (s, h) or k != (s, h):
+                            viols.append(("rlimit_readback_wrong", f"rlimit({name},({s},{h})): psutil {g} kernel {k}"))
+                        # every other resource of the target is untouched
+                        ta = snapshot(c.target.pid)
+                        for i, (r2, n2) in enumerate(RLIMS):
+                            if r2 != res and ta["rlim"][i] != tb["rlim"][i]:
+                                viols.append(("rlimit_changed_other_resource", f"set {name} changed {n2}: {tb['rlim'][i]} -> {ta['rlim'][i]}"))
+                        if (ta["nice"], ta["ioprio"], ta["aff"]) != (tb["nice"], tb["ioprio"], tb["aff"]):
+                            viols.append(("rlimit_changed_other_attribute", f"set {name}"))
                 acc.case(case, prev != (s, h), viols, key=harness.chash(["rlimit", name, s, h, prev]))
         finally:
             c.close()
